@@ -1,7 +1,7 @@
 (* One entry point for the extracted model: [run cmd args] returns the result fields.
    The OCaml driver only splits lines, (un)escapes and converts strings. *)
 From Coq Require Import List Bool NArith String Ascii.
-From PC Require Import Base.Cmp Base.Result Model.Pep440 Spec.Pep440Spec Spec.Specifier Model.VConstraint.
+From PC Require Import Base.Cmp Base.Result Model.Pep440 Spec.Pep440Spec Spec.Specifier Model.VConstraint Model.Generic.
 Import ListNotations.
 Open Scope string_scope.
 Open Scope N_scope.
@@ -135,7 +135,7 @@ Definition err_str (e : err) : string :=
   | EParseConstraint => "ParseConstraintError" | EInvalidVersion => "InvalidVersionError"
   | EInvalidMarker => "InvalidMarkerError" | EUndefinedComparison => "UndefinedComparison"
   | EUndefinedEnvName => "UndefinedEnvironmentName" | ERecursion => "RecursionError"
-  | EOutOfFuel => "OutOfFuel" end.
+  | EOutOfFuel => "OutOfFuel" | ENested => "ModelCannotRepresent" end.
 Definition repr_ver (v : version) : string := vrepr v ++ "~" ++ text v.
 Definition repr_over (o : option version) : string := match o with Some v => repr_ver v | None => "-" end.
 Definition repr_rng (r : rng) : string :=
@@ -196,6 +196,62 @@ Definition run_vc (cmd : string) (args : list string) : option (list string) :=
     | _ => None end
   else None.
 
+(* ---------------- string constraints ---------------- *)
+Definition repr_atom (a : atom) : string :=
+  (if ax a then "X(" else "A(") ++ gop_str (aop a) ++ "," ++ av a ++ ")".
+Definition repr_gs (s : gs) : string :=
+  match s with
+  | SAny => "Any" | SEmpty => "Empty"
+  | SAtom a => repr_atom a
+  | SMulti x l => (if x then "XM[" else "M[") ++ sjoin ";" (map repr_atom l) ++ "]"
+  end.
+Definition grepr (c : gc) : string :=
+  match c with GS s => repr_gs s | GU l => "U[" ++ sjoin " | " (map repr_gs l) ++ "]" end.
+Definition gprobe (extra : bool) (c : gc) (p : string) : string :=
+  if extra then show_bool (xsat c (map str (match lchars p with [] => [] | l => split_on ","%char l end)))
+  else show_bool (sat c p).
+Definition gdescribe (extra : bool) (c : gc) (probes : list string) : list string :=
+  [grepr c; g_str c; show_bool (g_is_any c); show_bool (g_is_empty c)] ++ map (gprobe extra c) probes.
+Definition gbinop (name : string) (a b : gc) : option (res gc) :=
+  if seq name "intersect" then Some (g_intersect a b) else
+  if seq name "union" then Some (g_union a b) else None.
+Definition run_generic (cmd : string) (args : list string) : option (list string) :=
+  if seq cmd "gparse" then
+    match args with
+    | x :: s :: probes =>
+      Some match parse_g (seq x "1") s with
+           | Ok c => "ok" :: gdescribe (seq x "1") c probes
+           | Err e => ["err"; err_str e] end
+    | _ => None end
+  else if seq cmd "gbin" then
+    match args with
+    | name :: x :: sa :: sb :: probes =>
+      Some match parse_g (seq x "1") sa, parse_g (seq x "1") sb with
+           | Ok a, Ok b =>
+             match gbinop name a b with
+             | Some (Ok c) => "ok" :: gdescribe (seq x "1") c probes
+             | Some (Err e) => ["err"; err_str e]
+             | None => ["badop"] end
+           | _, _ => ["badoperand"] end
+    | _ => None end
+  else if seq cmd "ginvert" then
+    match args with
+    | x :: sa :: probes =>
+      Some match parse_g (seq x "1") sa with
+           | Ok a => match g_invert a with
+                     | Ok c => "ok" :: gdescribe (seq x "1") c probes
+                     | Err e => ["err"; err_str e] end
+           | _ => ["badoperand"] end
+    | _ => None end
+  else if seq cmd "gpred" then
+    match args with
+    | [x; sa; sb] =>
+      Some match parse_g (seq x "1") sa, parse_g (seq x "1") sb with
+           | Ok a, Ok b => [show_bool (g_allows_all a b); show_bool (g_allows_any a b)]
+           | _, _ => ["badoperand"] end
+    | _ => None end
+  else None.
+
 (* reference specifier semantics (Spec/Specifier.v), validated against packaging by the harness *)
 Definition run_spec (cmd : string) (args : list string) : option (list string) :=
   if seq cmd "spcontains" then
@@ -222,6 +278,9 @@ Definition run (cmd : string) (args : list string) : list string :=
   | None =>
     match run_vc cmd args with
     | Some r => r
-    | None => match run_spec cmd args with Some r => r | None => ["unknown-command"] end
+    | None => match run_spec cmd args with
+              | Some r => r
+              | None => match run_generic cmd args with Some r => r | None => ["unknown-command"] end
+              end
     end
   end.
